@@ -5,7 +5,7 @@ from __future__ import annotations
 import ast
 
 from .. import sqlt
-from ..execmodel import ExecHooks, make_session
+from ..execmodel import ExecHooks, R, make_session
 from ..interp import explore
 from ..model import norm
 from ..values import Const, Obj, Str, Sym, tagof
@@ -36,7 +36,7 @@ SKIP_B = {"DESCRIBE query", "CALL (Command)", "GRANT"}
 
 def rule_describable(ctx):
     prog = ctx.prog
-    site = find_store_site(prog, "cursor", "FakeSnowflakeCursor._execute", "_last_sql")
+    site = find_store_site(prog, "cursor", "FakeSnowflakeCursor._execute", R().last_sql)
     n = 0
     for kind in all_kinds():
         if kind in SKIP_B:
@@ -45,7 +45,7 @@ def rule_describable(ctx):
             if tr.path.outcome != "return":
                 continue
             n += 1
-            last_sql = tr.cur.attrs.get("_last_sql")
+            last_sql = tr.cur.attrs.get(R().last_sql)
             q = is_query(last_sql)
             ctx.ob("C06.b", f"{kind}: recorded statement is a single query", q, site_loc(prog, "cursor", site), text_of(last_sql)[:80])
             if q is False:
@@ -91,7 +91,7 @@ def rule_describable(ctx):
     for p, cur in zip(explore(prog, fac, run2, max_paths=16), sessions):
         if p.outcome != "return":
             continue
-        last_sql = cur.attrs.get("_last_sql")
+        last_sql = cur.attrs.get(R().last_sql)
         q = is_query(last_sql)
         ctx.ob("C06.b", "SELECT with seed side-channel: recorded statement is a single query", q,
                site_loc(prog, "cursor", site), text_of(last_sql)[:80])
@@ -116,9 +116,9 @@ def rule_pure(ctx):
 
     def run(I):
         duck, conn, cur = make_session()
-        cur.attrs["_last_sql"] = Sym("LAST_SQL", typ="str", truthy=True)
-        cur.attrs["_arrow_table"] = Obj("pending_table", kind="arrow")
-        cur.attrs["_arrow_table_fetch_index"] = Sym("pending_index", typ="int")
+        cur.attrs[R().last_sql] = Sym("LAST_SQL", typ="str", truthy=True)
+        cur.attrs[R().table] = Obj("pending_table", kind="arrow")
+        cur.attrs[R().index] = Sym("pending_index", typ="int")
         sessions.append((conn, cur))
         return I.getattr(cur, "description")
 
@@ -245,7 +245,7 @@ def rule_type_domain(ctx):
         for tr in traces(prog, kind):
             if tr.path.outcome != "return":
                 continue
-            last_sql = tr.cur.attrs.get("_last_sql")
+            last_sql = tr.cur.attrs.get(R().last_sql)
             k, root = sql_root(last_sql)
             src = None
             if k == "text":
